@@ -292,7 +292,7 @@ func (i *InsertStatement) Format(opts FormatOptions) string {
 
 	sb.WriteString(f.kw("INSERT INTO"))
 	sb.WriteString(" ")
-	sb.WriteString(i.TableName)
+	sb.WriteString(safeIdentifier(i.TableName))
 
 	if len(i.Columns) > 0 {
 		sb.WriteString(" (")
@@ -366,10 +366,10 @@ func (u *UpdateStatement) Format(opts FormatOptions) string {
 
 	sb.WriteString(f.kw("UPDATE"))
 	sb.WriteString(" ")
-	sb.WriteString(u.TableName)
+	sb.WriteString(safeIdentifier(u.TableName))
 	if u.Alias != "" {
 		sb.WriteString(" ")
-		sb.WriteString(u.Alias)
+		sb.WriteString(safeIdentifier(u.Alias))
 	}
 
 	sb.WriteString(f.clauseSep())
@@ -428,10 +428,10 @@ func (d *DeleteStatement) Format(opts FormatOptions) string {
 
 	sb.WriteString(f.kw("DELETE FROM"))
 	sb.WriteString(" ")
-	sb.WriteString(d.TableName)
+	sb.WriteString(safeIdentifier(d.TableName))
 	if d.Alias != "" {
 		sb.WriteString(" ")
-		sb.WriteString(d.Alias)
+		sb.WriteString(safeIdentifier(d.Alias))
 	}
 
 	if len(d.Using) > 0 {
@@ -948,7 +948,7 @@ func (m *MergeStatement) Format(opts FormatOptions) string {
 	sb.WriteString(tableRefSQL(&m.TargetTable))
 	if m.TargetAlias != "" {
 		sb.WriteString(" ")
-		sb.WriteString(m.TargetAlias)
+		sb.WriteString(safeIdentifier(m.TargetAlias))
 	}
 
 	sb.WriteString(f.clauseSep())
@@ -957,7 +957,7 @@ func (m *MergeStatement) Format(opts FormatOptions) string {
 	sb.WriteString(tableRefSQL(&m.SourceTable))
 	if m.SourceAlias != "" {
 		sb.WriteString(" ")
-		sb.WriteString(m.SourceAlias)
+		sb.WriteString(safeIdentifier(m.SourceAlias))
 	}
 
 	sb.WriteString(f.clauseSep())
